@@ -381,13 +381,46 @@ def r5(ctx):
     c09.r3(ctx)
 
 
+def r6(ctx):
+    """Every relationship of the PED file is considered: the loop that turns PED lines into trios is left only when the file is
+    exhausted, and a relationship is skipped only for the two documented reasons (unknown individual, not among the samples)."""
+    sp = ctx.func(PH + ".setup_pedigree")
+    cfg = ctx.cfg(sp)
+    loops = [n for n in walk_function(sp.node) if isinstance(n, ast.For) and isinstance(n.iter, ast.Call) and u(n.iter.func) == "PedReader"]
+    if len(loops) != 1:
+        ctx.ob(sp.qual, "every-relationship-considered", None, sp.loc(), "loop over PedReader(...) not found in setup_pedigree")
+        return
+    lp = loops[0]
+    tv = u(lp.target)
+    exits = util.lexical_loop_exits(lp)
+    ctx.ob(sp.qual, "every-relationship-considered", not exits, sp.loc(exits[0]) if exits else sp.loc(lp), "the PED loop runs over all relationships" if not exits else "`%s` leaves the PED loop at the first relationship that is passed over: every trio listed after it is dropped and its members are phased as unrelated individuals" % u(exits[0]))
+    apps = [c for c in ctx.prog.calls_in(lp) if isinstance(c.func, ast.Attribute) and c.func.attr == "append" and c.args and u(c.args[0]) == tv]
+    if len(apps) != 1:
+        ctx.ob(sp.qual, "relationship-skipped-only-when-incomplete", None, sp.loc(lp), "the statement that keeps a trio was not found")
+        return
+    probs = util.check_loop_conservation(cfg, lp, lambda n: n == cfg.node_containing(apps[0]))
+    bad = None
+    for kind, path in probs:
+        if kind != "skip":
+            continue
+        from sa.norm import path_atoms
+
+        pa = path_atoms(cfg, path)
+        unknown = any(p_ and t_ in ("None is %s.child" % tv, "None is %s.mother" % tv, "None is %s.father" % tv) for t_, p_ in pa) or any(p_ and "None is %s." % tv in t_ for t_, p_ in pa)
+        absent = any((not p_) and t_.startswith("%s." % tv) and t_.endswith(" in samples") for t_, p_ in pa) or any(p_ and "not in samples" in t_ or (p_ and " in samples" in t_ and "not " in t_) for t_, p_ in pa)
+        if not (unknown or absent):
+            bad = path
+    ctx.ob(sp.qual, "relationship-skipped-only-when-incomplete", bad is None, sp.loc(lp), "a relationship is passed over only if an individual is unknown or not among the samples to phase" if bad is None else "a relationship of the PED file can be dropped for another reason", cfg.describe_path(bad) if bad else None)
+
+
 RULES = [
     ("C05.R1", "role flow father|mother from PED file to GT across three languages", r1),
     ("C05.R2", "missing genotypes and Mendelian conflicts are excluded (set algebra)", r2),
     ("C05.R3", "genetic phasing of homozygous-parent variants on by default", r3),
     ("C05.R4", "transmission bit layout agrees between C++ and Python", r4),
     ("C05.R5", "GT is normalised whether or not the input call was phased", r5),
+    ("C05.R6", "every PED relationship among the samples becomes a trio", r6),
 ]
 # instance floors: about 60% of the instances confirmed by hand on the reference tree -- a rule that suddenly matches far fewer
 # sites fails the run (exit 2); a clean-up that merges two sites into one does not
-FLOORS = {"C05.R1": 9, "C05.R2": 8, "C05.R3": 2, "C05.R4": 4, "C05.R5": 1}
+FLOORS = {"C05.R1": 9, "C05.R2": 8, "C05.R3": 2, "C05.R4": 4, "C05.R5": 1, "C05.R6": 1}
